@@ -3,7 +3,7 @@ import itertools
 from .. import cfg as C
 from .. import hirx as H
 from ..flow import ExprBuilder, mentions_call, mentions_field, is_call, walk, show, cond_switches, guarded, \
-    seed_after_call, Sccp, I, V, X
+    seed_after_call, Sccp, I, V, X, value_set
 from ..graph import classify_result, CallGraph
 from ..facts import op_const, op_place
 
@@ -239,6 +239,23 @@ def matched_rule(ctx, r):
         r.ok("%s|listing" % name, "listing mode: matched means 'a haystack was listed'", nontrivial=False, fn=f)
 
 
+def main_maps_pipe(facts):
+    """main() walks the error chain for an io::Error of kind BrokenPipe and exits 0 without printing."""
+    m = facts.fn("rg::main")
+    live = Sccp(m).run([(0, {})]).exec_blocks
+    # only the test on an error taken from the anyhow chain (eprintln_locked! has a pipe test of its own for stderr)
+    sw = [x for x in pipe_switches(m) if x[0] in live and mentions_call(x[3], "anyhow::error::<impl anyhow::Error>::chain",
+                                                                        "anyhow::Error::chain", "core::any::<impl dyn core::error::Error>::downcast_ref",
+                                                                        "downcast_ref")]
+    if not sw:
+        return False
+    for bb, te, fe, e in sw:
+        after = C.reach(m, [te[1]], stop_blocks=loop_headers(m))
+        if any(c.path.endswith("_eprint") or "eprint" in c.path for c in m.calls() if c.bb in after):
+            return False
+    return True
+
+
 def pipe_rule(ctx, r):
     facts = ctx.facts
     # (function, callee, label)
@@ -290,11 +307,73 @@ def pipe_rule(ctx, r):
                 continue
             after = C.reach(f, [te[1]], stop_blocks=hdrs)
             noisy += calls_in(f, after, SET_ERRORED)
-            noisy += [x for x in err_returns(f, after)]
+            # an Err return hands the BrokenPipe error to main, whose chain test maps it to a silent status 0 (C15.STATUS)
+            if not (f.path in ("rg::search", "rg::files", "rg::files_parallel", "rg::search_parallel") and main_maps_pipe(facts)):
+                noisy += [x for x in err_returns(f, after)]
         if noisy:
             r.bad(label, "the BrokenPipe edge of %s still reports an error" % c.path, fn=f, loc=c.loc)
         else:
             r.ok(label, "Err ⇒ BrokenPipe tested first; pipe edge is quiet", fn=f)
+    # (status) in the serial drivers the pipe edge must not fall back to "matched so far": the run either hands the
+    # BrokenPipe error to main (whose chain test maps it to status 0) or returns Ok(true)
+    for f, c, label in todo:
+        if f.path not in ("rg::search", "rg::files"):
+            continue
+        sw = [x for x in pipe_switches(f)]
+        if not sw:
+            continue
+
+        def model(call, argvals, c=c):
+            if call.bb == c.bb:
+                return V("Err", None)
+            return None
+        a = Sccp(f, call_model=model).run([(0, {})])
+        vals = set()
+        for bb, te, fe, e in sw:
+            if bb not in a.exec_blocks:
+                continue
+            b = Sccp(f, call_model=model, stop_blocks=loop_headers(f)).run([(te[1], dict(a.env_in.get(bb, {})))])
+            for v_ in b.ret_values.values():
+                vals |= set(value_set(v_)) if v_ is not None else {None}
+        key = "status|" + f.path.split("::")[-1]
+        bad = [v_ for v_ in vals if not (v_ is not None and (v_[1] == "Err" or v_ == V("Ok", I(1))))]
+        if vals and not bad:
+            r.ok(key, "pipe edge returns %s" % sorted(str(v_) for v_ in vals), fn=f)
+        else:
+            r.bad(key, "when the consumer closes the pipe, %s returns Ok(matched so far): if nothing had matched before the "
+                  "write failed the process exits with status 1 instead of 0" % f.path, fn=f, loc=c.loc, construct="pipe-status")
+    # (kind) an error coming out of search_reader may be the printer's BrokenPipe: a wrapper must keep its kind
+    nwrap = 0
+    for fn_ in facts.fns_in("rg::search::SearchWorker::"):
+        if fn_.kind == "closure":
+            continue
+        eb = ExprBuilder(fn_)
+        for me in fn_.calls_to("core::result::Result::map_err"):
+            src = eb.operand(me.args[0])
+            if not mentions_call(src, "rg::search::SearchWorker::search_reader", "rg::search::SearchWorker::search_path",
+                                 "rg::search::search_reader", "rg::search::search_path"):
+                continue
+            clo = [x for x in walk(eb.operand(me.args[1])) if x.k == "closure"]
+            for cl in clo:
+                g = facts.fn(cl[1])
+                ebg = ExprBuilder(g)
+                for ne in g.calls_to("std::io::error::Error::new"):
+                    nwrap += 1
+                    kind = ebg.operand(ne.args[0])
+                    key = "kind|" + fn_.name
+                    if mentions_call(kind, "std::io::error::Error::kind"):
+                        r.ok(key, "the wrapper keeps err.kind()", fn=g)
+                    else:
+                        r.bad(key, "%s re-labels every error of the search (including the printer's BrokenPipe) as `%s`: the "
+                              "driver no longer recognises a closed pipe, prints a diagnostic, continues and exits with 2"
+                              % (fn_.path, show(kind)[:40]), fn=g, loc=ne.loc, construct="pipe-kind")
+    if not nwrap:
+        r.ok("kind|none", "no wrapper rebuilds an error of the search", nontrivial=False)
+    if main_maps_pipe(facts):
+        r.ok("main|chain", "main: an io::Error of kind BrokenPipe anywhere in the chain ⇒ silent exit", fn="rg::main")
+    else:
+        r.bad("main|chain", "main no longer maps a BrokenPipe error to a silent exit: the drivers hand it that error", fn="rg::main",
+              construct="pipe-main")
     # confirmed minority: SearchWorker::search inside search_parallel writes to a memory buffer
     r.ok("exception|search in search_parallel", "table exception: per-worker printer writes to a termcolor::Buffer, "
          "no pipe can break there", nontrivial=False)
@@ -477,7 +556,7 @@ def run(ctx):
         status_rule(ctx, r)
     with ctx.rule("C15.MATCHED", "`matched` derives from the mode functions / has_match()", floor=8, kind="FLOW") as r:
         matched_rule(ctx, r)
-    with ctx.rule("C15.PIPE", "every handled stdout-write error tests BrokenPipe first and stops quietly", floor=4, kind="GUARD") as r:
+    with ctx.rule("C15.PIPE", "every handled stdout-write error tests BrokenPipe first and stops quietly", floor=8, kind="GUARD") as r:
         pipe_rule(ctx, r)
     with ctx.rule("C15.CONTINUE", "per-file errors set the error flag and continue", floor=3, kind="A3/MAYCALL") as r:
         continue_rule(ctx, r)
